@@ -110,9 +110,9 @@ OffsetByKey == /\ Step /\ e.ev = "offsetbykey" /\ KeepState
 ConsumeByKey == /\ Step /\ e.ev = "consumebykey" /\ KeepState
                 /\ Must(ConsumeByKeyOK(live, next, cfg.keys, e.key, e.off, e.max, e))
 GetByTime == /\ Step /\ e.ev = "getbytime" /\ KeepState
-             /\ Must(GetByTimeOK(live, cfg.times, e.t, One(e)))
+             /\ Must(cfg.mono => GetByTimeOK(live, cfg.times, e.t, One(e)))   \* C10's premise: times never decrease
 OffsetByTime == /\ Step /\ e.ev = "offsetbytime" /\ KeepState
-                /\ Must(OffsetByTimeOK(live, cfg.times, e.t, e))
+                /\ Must(cfg.mono => OffsetByTimeOK(live, cfg.times, e.t, e))
 
 \* ---- C13: Stat against the file system totals, Size(m) against the documented layout
 Stat == /\ Step /\ e.ev = "stat" /\ KeepState
@@ -126,7 +126,7 @@ LayOf(segs) == [i \in 1..Len(segs) |-> [base |-> segs[i].base, ver |-> segs[i].v
 FlatOffs(segs) == FoldLeft(LAMBDA acc, s : acc \o s.offs, <<>>, segs)
 Layout == /\ Step /\ e.ev = "layout"
           /\ lay' = LayOf(e.segs)
-          /\ IF e.j THEN Must(LayoutOK(live, next, cfg, e.segs, e.closed)) ELSE UNCHANGED kf
+          /\ IF e.j THEN Must(LayoutOK(live, next, cfg, e.segs, e.stale)) ELSE UNCHANGED kf
           /\ UNCHANGED <<live, next, cfg, h, pend>>
 
 \* ---- C15
